@@ -43,10 +43,43 @@ def apply_shape(ctx, rule='A5'):
            'the exclusion edges of the choice and the derivation edges between its sources and targets are removed '
            'with it (no constraint edge survives into the instance)', short(re_[0]) if re_ else 'missing')
     # endpoint validation
+    # endpoint validation: the raising test rejects an edge (s, t) exactly when s is not a source connector of the
+    # choice, or t is given (not None) and is not a target connector - decided as a truth table over the three atoms,
+    # for a per-edge test in a loop as well as for any(...) / not all(...) over the edges
+    import itertools
     tests = [n for n in cfg.nodes if n.kind == 'test' and 'in_nodes' in norm(n.ast) and 'out_nodes' in norm(n.ast)]
-    ok = bool(tests) and any(m.kind == 'stmt' and isinstance(m.ast, ast.Raise) for m, lab in tests[0].succ
-                             if lab == 'T') and 'edge[0] not in in_nodes' in norm(tests[0].ast) and \
-        'edge[1] not in out_nodes' in norm(tests[0].ast)
+
+    def rejects(e, env):
+        if isinstance(e, ast.BoolOp):
+            vals = [rejects(v, env) for v in e.values]
+            return all(vals) if isinstance(e.op, ast.And) else any(vals)
+        if isinstance(e, ast.UnaryOp) and isinstance(e.op, ast.Not):
+            return not rejects(e.operand, env)
+        if isinstance(e, ast.Call) and isinstance(e.func, ast.Name) and e.func.id in ('any', 'all') and \
+                len(e.args) == 1 and isinstance(e.args[0], (ast.GeneratorExp, ast.ListComp)) and \
+                len(e.args[0].generators) == 1 and not e.args[0].generators[0].ifs:
+            return rejects(e.args[0].elt, env)      # one offending edge, the others fine
+        if isinstance(e, ast.Compare) and len(e.ops) == 1:
+            l, r, op = norm(e.left), norm(e.comparators[0]), e.ops[0]
+            neg = isinstance(op, (ast.NotIn, ast.IsNot, ast.NotEq))
+            if isinstance(op, (ast.In, ast.NotIn)) and l.endswith('[0]') and r == 'in_nodes':
+                return env['src'] != neg
+            if isinstance(op, (ast.In, ast.NotIn)) and l.endswith('[1]') and r == 'out_nodes':
+                return env['tgt'] != neg
+            if isinstance(op, (ast.Is, ast.IsNot, ast.Eq, ast.NotEq)) and l.endswith('[1]') and r == 'None':
+                return env['none'] != neg
+        raise AnalysisError(f'get_mod_apply_connection_choice: unrecognised endpoint test `{norm(e)}`')
+    ok = False
+    for t_ in tests:
+        raising = {lab for m, lab in t_.succ if m.kind == 'stmt' and isinstance(m.ast, ast.Raise)}
+        if len(raising) != 1:
+            continue
+        lab = raising.pop()
+        ok = all((rejects(t_.ast, dict(zip(('src', 'none', 'tgt'), v))) == (lab == 'T')) ==
+                 ((not v[0]) or ((not v[1]) and (not v[2])))
+                 for v in itertools.product((False, True), repeat=3) if not (v[1] and v[2]))
+        if ok:
+            break
     ctx.ob(rule, fkey(fn, rule, 'endpoints-validated'), ok, fn.where,
            'an edge whose source is not a source connector of the choice, or whose target is not a target '
            'connector, is rejected with an error', short(tests[0].ast) if tests else 'missing')
@@ -54,8 +87,32 @@ def apply_shape(ctx, rule='A5'):
         'out_nodes = {edge[1] for edge in iter_out_edges(graph, choice_node)}' in t
     ctx.ob(rule, fkey(fn, rule, 'endpoints-are-choice-neighbours'), ok, fn.where,
            'the admissible sources / targets are the in- / out-neighbours of the choice node', '')
-    ok = 'added_edges.add(get_edge(edge[0], edge[1], key=edge_key[edge], is_conn=True))' in t and \
-        'edge_key[edge] += 1' in t and 'edge_key = defaultdict(int)' in t
+    # parallel connections between the same pair get distinct keys: the key of an added edge is read from a counter
+    # kept per (source, target) pair, and that counter is advanced for the same pair in the same iteration
+    ok = False
+    for lp in [x for x in ast.walk(fn.node) if isinstance(x, ast.For)]:
+        for c in [x for x in ast.walk(lp) if isinstance(x, ast.Call) and call_name(x) == 'get_edge']:
+            k = kwarg(c, 'key')
+            if k is None:
+                continue
+            kx = expand_locals(fn, k, depth=1)
+            # counter read: D[pair] or D.get(pair, 0)
+            if isinstance(kx, ast.Subscript) and isinstance(kx.value, ast.Name):
+                cnt, pair = kx.value.id, norm(kx.slice)
+            elif isinstance(kx, ast.Call) and call_name(kx) == 'get' and isinstance(kx.func.value, ast.Name) and \
+                    len(kx.args) == 2 and norm(kx.args[1]) == '0':
+                cnt, pair = kx.func.value.id, norm(kx.args[0])
+            else:
+                continue
+            if pair != norm(lp.target):
+                continue
+            adv = [st for st in ast.walk(lp) if
+                   (isinstance(st, ast.AugAssign) and isinstance(st.op, ast.Add) and
+                    norm(st.target) == f'{cnt}[{pair}]' and norm(st.value) == '1') or
+                   (isinstance(st, ast.Assign) and norm(st.targets[0]) == f'{cnt}[{pair}]' and
+                    isinstance(st.value, ast.BinOp) and isinstance(st.value.op, ast.Add) and norm(st.value.right) == '1'
+                    and norm(expand_locals(fn, st.value.left, depth=1)) in (norm(kx), norm(k)))]
+            ok = ok or bool(adv)
     ctx.ob(rule, fkey(fn, rule, 'parallel-edges-distinct-keys'), ok, fn.where,
            'every applied connection becomes a CONNECTS edge; repeated (parallel) connections get distinct keys so '
            'that none is lost in the edge set', '')
